@@ -118,7 +118,7 @@ def _sync(ctx, R, T):
         rn, rc = recvs[0]
         R.check(len(rc.args) == 1 and T.term(f, rn, rc.args[0]) == ("p", nb) and not rc.keywords, "PASS", q + "|size", "recv(numbytes): the requested size, unchanged",
                 "recv is asked for `%s`, not for numbytes" % (src(rc.args[0]) if rc.args else "?"), f.loc(rn.ast))
-        R.check(varkey(unawait(rc.func.value)) == f.params[0] + "._connection", "PASS", q + "|socket", "reads from the connection", None, f.loc(rn.ast), trivial=True)
+        R.check(_recv_key(ctx, f, rn, rc.func.value) == f.params[0] + "._connection", "PASS", q + "|socket", "reads from the connection", None, f.loc(rn.ast), trivial=True)
         rets = [n for n in g.live_nodes() if n.kind == "stmt" and isinstance(n.ast, ast.Return)]
         for x in rets:
             v = unawait(x.ast.value) if x.ast.value is not None else None
@@ -145,15 +145,15 @@ def _sync(ctx, R, T):
     ck = key(ast.Attribute(value=ast.Name(id=selfn, ctx=ast.Load()), attr="_connection", ctx=ast.Load()))
     for n in g.live_nodes():
         for c in node_calls(n):
-            if isinstance(c.func, ast.Attribute) and varkey(unawait(c.func.value)) == selfn + "._connection":
+            if isinstance(c.func, ast.Attribute) and _recv_key(ctx, f, n, c.func.value) == selfn + "._connection":
                 ok = any(fa[0] == ("truthy", ck) and fa[1] is True for fa in df.facts(n)) or any(fa[0][0] == "is" and ck in fa[0][1:] and fa[1] is False for fa in df.facts(n))
                 R.check(ok, "CLOSE", "%s|%s" % (f.qualname, norm_stmt(c)), "socket touched only when connected (closing twice is a no-op)", "`%s` runs even when the transport is not connected: close() is not idempotent" % norm_stmt(c), f.loc(n.ast))
-    closes = [n for n in g.live_nodes() for c in node_calls(n) if call_attr(c) == "close" and varkey(unawait(c.func.value)) == selfn + "._connection"]
+    closes = [n for n in g.live_nodes() for c in node_calls(n) if call_attr(c) == "close" and _recv_key(ctx, f, n, c.func.value) == selfn + "._connection"]
     R.check(len(closes) == 1, "CLOSE", f.qualname + "|closes-socket", "the socket is closed", "close() does not close the socket exactly once", f.loc())
     # shutdown, when called, is shutdown(socket.SHUT_RDWR): anything else raises TypeError / leaves one direction open, and close() no longer completes
     for n in g.live_nodes():
         for c in node_calls(n):
-            if call_attr(c) == "shutdown" and varkey(unawait(c.func.value)) == selfn + "._connection":
+            if call_attr(c) == "shutdown" and _recv_key(ctx, f, n, c.func.value) == selfn + "._connection":
                 t = T.term(f, n, c.args[0]) if len(c.args) == 1 and not c.keywords else None
                 import socket as _socket
                 okarg = t is not None and (t == ("c", _socket.SHUT_RDWR) or (t[0] in ("ext", "attr", "p") and "SHUT_RDWR" in str(t)))
@@ -298,6 +298,21 @@ def _async(ctx, R, T):
     for cn in calls[:1]:
         _under_timeout(ctx, R, T, f, cn, f.params[1])
     R.check(ok, "CONNECT", f.qualname, "connect() binds fresh (reader, writer) to (host, port), in that order", "connect() does not bind (reader, writer) = open_connection(host, port) on every successful path", f.loc())
+
+
+def _recv_key(ctx, f, node, e):
+    """key of a receiver expression, a local that is (uniquely, here) a snapshot of an attribute standing for that attribute - provided the
+    attribute was not written in between (single-threaded reading of the transport contract)"""
+    from ..util import subst_copies
+    e = unawait(e)
+    k = varkey(e)
+    if isinstance(e, ast.Name):
+        try:
+            k2 = varkey(unawait(subst_copies(ctx, f, node, e)))
+        except Exception:   # noqa
+            k2 = None
+        return k2 or k
+    return k
 
 
 def _under_timeout(ctx, R, T, f, node, to):
